@@ -163,7 +163,7 @@ def c15(rep, n):
         if ps.known_predicates(m) - {'enum-in-class'}:
             rep.bounded['skipped'] += 1
             continue
-        cls = [c for c in classes(m) if not any(x[0] == 'enum' for x in c[2][5])]
+        cls = list(classes(m))
         if len(cls) < 1:
             continue
         names = [c[2][3] for c in classes(m)]
@@ -197,7 +197,7 @@ def c15(rep, n):
             missing = [r for r in b if r not in a][:3]
             rep.violation('c15:pybind-ignore-vs-delete', 'ignoring %s differs from deleting it: extra %r missing %r' % (cpp, extra, missing),
                           dict(kind='c15', input=text, ignore=cpp, without=without))
-        if ns:      # MATLAB: namespaced classes (global-scope ignore is a known finding)
+        if True:
             try:
                 fa, _ = generate(text, ignore=(mname,))
                 fb, _ = generate(without)
